@@ -345,6 +345,7 @@ static void inc_block(const Args &a) {
     const unsigned char *ip = in.p;
     if (inplace) { out.load(d); ip = out.p; }
     if (dec) io->dec(m, ip, out.p, d.size()); else io->enc(m, ip, out.p, d.size());
+    reg_store(a, out.get(d.size()));
     Ev ev(a.op); ev.s("scheme", sch).n("obj", id).b("in", d).n("inplace", inplace).b("out", out.get(d.size())).n("guard", out.guards_ok());
     dump_inc(ev, io, m); ev.emit();
 }
@@ -353,6 +354,7 @@ static void inc_encfin(const Args &a) {
     void *m = obj_get(id, ("inc." + sch).c_str()).mem;
     OutBuf out(16, (unsigned)a.num("oalign"));
     io->encfin(m, out.p);
+    reg_store(a, out.get(16));
     Ev ev("inc.encfin"); ev.s("scheme", sch).n("obj", id).b("out", out.get(16)).n("guard", out.guards_ok()); dump_inc(ev, io, m); ev.emit();
 }
 static void inc_decfin(const Args &a) {
